@@ -156,18 +156,42 @@ def oracle(seed, tier):
                 bad("polygon test says %s, exact test %s for %s in %s" % (a[1] if a[0] == "ok" else a, m[1], [str(c) for c in m[3]], m[2]))
         elif m[0] == "bez":
             s = parse_answer(out[i + 1])
+            # a sampled minimum at an END of the curve is not a foot (the library only reports perpendicular feet, `piece + t > 0`; on the sphere the foot of a point
+            # constructed over the lon/lat polyline can fall beyond the end): such a sample is not comparable
+            at_end = s[0] == "ok" and ((int(s[1][1]) == 0 and s[1][2] <= 0.0025) or (int(s[1][1]) == len(m[2]) - 2 and s[1][2] >= 0.9975))
             if a[0] == "ok" and s[0] == "ok" and not math.isnan(a[1][1]):
                 d = abs(a[1][0]); best = s[1][0]
+                if m[1]:
+                    # spherical: the library's `distance` is sqrt(hav) of its own metric; measure the reported POINT with the sampler's great-circle formula instead
+                    px, py = a[1][3], a[1][4]
+                    qx, qy = m[3]
+                    sl, so = math.sin((py - qy) * 0.5), math.sin((px - qx) * 0.5)
+                    d = 2.0 * math.asin(math.sqrt(sl * sl + so * so * math.cos(qy) * math.cos(py)))
                 tol = 1e-6 * m[4] + 1e-9 * abs(best)
-                if d > best + tol:
+                if d > best + tol and not at_end:
+                    if m[1] and d <= best * 2.0:
+                        # spherical curves: the library minimises sin^2(dlat/2) + sin^2(dlon/2) cos(lat_q) cos(dlat) — cos of the latitude DIFFERENCE where the haversine
+                        # has cos(lat_curve) — so its foot is not the great-circle closest point (recorded known finding); a reported point more than twice as far as the best sample is something else
+                        if d > best * (1 + 1e-3):
+                            viol.append({"what": "spherical trench curve: the reported closest point is at great-circle distance %r, a sampled curve point at %r (%.3g %% closer; piece %d, t=%r)" % (
+                                d, best, 100 * (d - best) / best, int(s[1][1]), s[1][2]), "cmd": lines[i][:600], "answer": out[i][:300], "probe": "spherical-closest-point-metric"})
+                        i += 1
+                        continue
                     bad("closest point at distance %r but a sampled curve point is at %r (piece %d, t=%r)" % (d, best, int(s[1][1]), s[1][2]))
             elif a[0] != "ok":
                 bad("closest point failed: %s" % (a,))
-            elif math.isnan(a[1][1]) and s[0] == "ok":
+            elif math.isnan(a[1][1]) and s[0] == "ok" and not at_end and m[1] and (s[1][2] < 0.05 or s[1][2] > 0.95):
+                # spherical, sampled minimum within 5 % of a piece end: in the library's own metric (see above) the minimum can lie beyond the end of the curve
+                viol.append({"what": "spherical trench curve: no closest point reported although a sampled curve point at t=%r of piece %d is a local minimum of the great-circle distance (%r)" % (
+                    s[1][2], int(s[1][1]), s[1][0]), "cmd": lines[i][:600], "answer": out[i][:300], "probe": "spherical-closest-point-metric"})
+            elif math.isnan(a[1][1]) and s[0] == "ok" and not at_end:
                 # no acceptable foot although the query was constructed with its foot inside the curve
                 bad("no closest point reported for a point whose foot lies inside the curve (nearest sample at %r)" % s[1][0])
         elif m[0] == "bezv":
-            if a[0] == "ok" and not math.isnan(a[1][1]):
+            # the first coordinate is not an admissible foot (`piece + t > 0`), nor is the last one of a single-piece curve (`t - 1 < piece`): the closest-point
+            # routine cannot be used to probe those two; the curve passing through them is the theorem C19_bezier_* / the `kbezsample` end points
+            probeable = m[3] != 0 and not (len(m[2]) == 2 and m[3] == 1)
+            if a[0] == "ok" and not math.isnan(a[1][1]) and probeable:
                 if abs(a[1][0]) > 1e-6 * m[4]:
                     bad("curve does not pass through coordinate %d: distance %r" % (m[3], a[1][0]))
         elif m[0] == "conv":
@@ -181,7 +205,7 @@ def oracle(seed, tier):
         if len(samples) < 4 and m[0] in ("kd", "gc", "bez") and cases % 97 == 0:
             samples.append({"cmd": lines[i][:160], "answer": out[i][:100]})
         i += 1
-    return {"violations": viol[:20], "summary": {"cases": cases, "violations": len(viol), "nontrivial": cases}, "samples": samples or [{"cmd": lines[0][:160], "answer": out[0][:100] if out else None}]}
+    return {"violations": trim_violations(viol, 20), "summary": {"cases": cases, "violations": len(viol), "nontrivial": cases}, "samples": samples or [{"cmd": lines[0][:160], "answer": out[0][:100] if out else None}]}
 
 
 def replay(rp):
